@@ -19,7 +19,7 @@ func init() { checks["C18"] = c18 }
 func c18(args []string) {
 	c := chk.New("C18", "exploration", args)
 	c.Build(false)
-	c.Rule("src(n) -> 1 or 2 upstream processes (random task durations) -> recorder -> StreamToSubStream -> task with {i:x|join:SEP}: sub-stream lengths {0,1,2,B,B+1,3B} for SCIPIPE_BUFSIZE B in {1,3} (thorough also 128), separators {' ', ',', ':', ' -I '} (and, printed by printf, separators containing a newline; the same joined port used three times in one command with different modifiers; a Go function writing through OutIP().Write() in a task with a joined in-port; two sub-streams reaching one joined in-port with default output names; the same file arriving twice on one sub-stream; a sub-stream fed by a hand-written component instead of StreamToSubStream; members that carry tags of their own), maxConcurrentTasks in {1,4}; without modifiers the task command is vcmd, which opens every path it was given from its working directory; with modifiers (%.txt, s/x/y/, basename) the command is an echo and only the strings are judged; oracle: exactly one start event of the joining process, the member paths in its argv == the sequence the recorder in front of the sub-stream saw (arrival order), all readable, the recorded command contains them joined by exactly SEP with modifiers applied to each member, audit Upstream keys == member paths and each names the upstream task; plus close storms: 2-8 one-file sources fan into a StreamToSubStream, built and run 1500-3000 times inside one child process (hooks passive in most of them) - exactly one sub-stream must come out per run. distinct_nontrivial = distinct (length, B, separator, modifiers, fan-in, config) cases")
+	c.Rule("[path shapes] sub-streams whose members mix relative, parent-relative and absolute paths (command and Go-function consumers): all members, arrival order, each readable from the task's working directory, each an Upstream key; src(n) -> 1 or 2 upstream processes (random task durations) -> recorder -> StreamToSubStream -> task with {i:x|join:SEP}: sub-stream lengths {0,1,2,B,B+1,3B} for SCIPIPE_BUFSIZE B in {1,3} (thorough also 128), separators {' ', ',', ':', ' -I ', '.and.', '..'} (and, printed by printf, separators containing a newline; the same joined port used three times in one command with different modifiers; a Go function writing through OutIP().Write() in a task with a joined in-port; two sub-streams reaching one joined in-port with default output names; the same file arriving twice on one sub-stream; a sub-stream fed by a hand-written component instead of StreamToSubStream; members that carry tags of their own), maxConcurrentTasks in {1,4}; without modifiers the task command is vcmd, which opens every path it was given from its working directory; with modifiers (%.txt, s/x/y/, basename) the command is an echo and only the strings are judged; oracle: exactly one start event of the joining process, the member paths in its argv == the sequence the recorder in front of the sub-stream saw (arrival order), all readable, the recorded command contains them joined by exactly SEP with modifiers applied to each member, audit Upstream keys == member paths and each names the upstream task; plus close storms: 2-8 one-file sources fan into a StreamToSubStream, built and run 1500-3000 times inside one child process (hooks passive in most of them) - exactly one sub-stream must come out per run. distinct_nontrivial = distinct (length, B, separator, modifiers, fan-in, config) cases")
 	c.Assume("with two upstream processes the arrival order is whatever the recorder saw; it is not predicted")
 	rng := c.Rand("c18")
 	type job struct {
@@ -37,7 +37,7 @@ func c18(args []string) {
 	}
 	for _, b := range bs {
 		for _, n := range []int{0, 1, 2, b, b + 1, 3 * b} {
-			for si, sep := range []string{"space", "comma", "colon", "dashI"} {
+			for si, sep := range []string{"space", "comma", "colon", "dashI", "dotand", "dotdot"} {
 				for mi, mods := range []string{"", "", "|%.out", "|s/U/V/", "|basename"} {
 					if !c.Thorough() && (si+mi+n)%3 != 0 {
 						continue
@@ -87,7 +87,7 @@ func c18(args []string) {
 		s.Procs = append(s.Procs, &spec.Proc{Name: "REC", Kind: spec.KRecorder}, &spec.Proc{Name: "SS", Kind: spec.KSubStream})
 		sepStr := spec.JoinSep(j.sep)
 		jn := &spec.Proc{Name: "JN", Kind: spec.KCmd, Outs: []*spec.Out{{Port: "out", Pattern: "joined.out"}}}
-		if j.mods == "" {
+		if j.mods == "" && j.sep != "dotdot" { // (".." also occurs in the "../" every member starts with: echo form only)
 			jn.Cmd = spec.BuildCmd("JN", []spec.PortDecl{{Name: "in", Join: j.sep}}, []spec.PortDecl{{Name: "out"}}, nil, nil, nil)
 		} else {
 			jn.Cmd = "echo J:{i:in|join:" + sepStr + j.mods + "}:J > {o:out}"
@@ -133,7 +133,7 @@ func c18(args []string) {
 			exp = append(exp, "../"+v)
 		}
 		want := strings.Join(exp, sepStr)
-		if j.mods == "" {
+		if j.mods == "" && j.sep != "dotdot" {
 			var starts []vproto.Event
 			for _, evs := range ti.Starts {
 				for _, e := range evs {
@@ -221,6 +221,7 @@ func c18(args []string) {
 	})
 	c18two(c)
 	c18corners(c)
+	c18pathShapes(c)
 	closeStorm(c, "substream")
 	c.Finish()
 }
@@ -541,4 +542,99 @@ func imin(a, b int) int {
 		return a
 	}
 	return b
+}
+
+// c18pathShapes: the members of one sub-stream mix relative, parent-relative and absolute paths; the command must
+// get all of them in arrival order, each resolvable from the task's working directory.
+func c18pathShapes(c *chk.Ctx) {
+	run.Parallel(c.Pick(6, 18), func(i int) {
+		root := c.CaseDir()
+		defer c.Drop(root)
+		s := &spec.Spec{Name: "joinpaths", MaxTasks: 3, Sources: map[string]string{}, Dirs: []string{"../shared", root + "/abs/in"}}
+		src := &spec.Proc{Name: "src", Kind: spec.KFileSource}
+		n := 3 + i%4
+		for k := 0; k < n; k++ {
+			var f string
+			switch (k + i) % 3 {
+			case 0:
+				f = fmt.Sprintf("rel/m%02d.txt", k)
+			case 1:
+				f = fmt.Sprintf("%s/abs/in/m%02d.txt", root, k)
+			default:
+				f = fmt.Sprintf("../shared/m%02d.txt", k)
+			}
+			src.Files = append(src.Files, f)
+			s.Sources[f] = fmt.Sprintf("member %d\n", k)
+		}
+		sepName := []string{"space", "comma", "colon"}[i%3]
+		s.Procs = append(s.Procs, src, &spec.Proc{Name: "REC", Kind: spec.KRecorder}, &spec.Proc{Name: "SS", Kind: spec.KSubStream},
+			&spec.Proc{Name: "JN", Kind: []string{spec.KCmd, spec.KCmd, spec.KGoFunc}[i%3], Cmd: spec.BuildCmd("JN", []spec.PortDecl{{Name: "in", Join: sepName}}, []spec.PortDecl{{Name: "out"}}, nil, nil, nil),
+				Outs: []*spec.Out{{Port: "out", Pattern: "joined.out"}}})
+		s.Conns = append(s.Conns, &spec.Conn{From: "src.out", To: "REC.in"}, &spec.Conn{From: "REC.out", To: "SS.in"}, &spec.Conn{From: "SS.substream", To: "JN.in"})
+		cfg := Cfg{Buf: []int{1, 3, 128}[i%3], Procs: 2}
+		desc := map[string]interface{}{"members": src.Files, "separator": spec.JoinSep(sepName), "cfg": cfg, "spec": s}
+		res := execSpec(c, root, s, cfg, nil, false, 0)
+		if res.Hang != "" {
+			if strings.HasPrefix(res.Hang, "deadlock") {
+				c.Violation("join-hang", res.Hang, desc)
+			} else {
+				c.Inconclusive(res.Hang)
+			}
+			return
+		}
+		if res.Exit != 0 || !res.Returned {
+			c.Violation("join-run-failed", fmt.Sprintf("members of mixed path shapes %v: exit %d: %s", src.Files, res.Exit, tail(res.Output(), 500)), desc)
+			return
+		}
+		ti := mon.Index(res.Trace)
+		arrived := recPaths(ti, "REC")
+		var ps []mon.Problem
+		nst := 0
+		for _, evs := range ti.Starts {
+			for _, st := range evs {
+				if st.ID != "JN" {
+					continue
+				}
+				nst++
+				var got []string
+				for _, m := range vproto.Parse(st.Argv).Joined {
+					got = append(got, vproto.NormIn(m))
+				}
+				if strings.Join(got, "\x00") != strings.Join(arrived, "\x00") {
+					ps = append(ps, mon.Problem{Sig: "joined-paths-order", Msg: fmt.Sprintf("command received %v, the sub-stream carried %v (arrival order)", got, arrived)})
+				}
+				for _, e := range ti.Ends[st.Key] {
+					if e.Status != 0 {
+						ps = append(ps, mon.Problem{Sig: "joined-path-unresolvable", Msg: "the joined task could not read a member: " + e.Note})
+					}
+				}
+			}
+		}
+		if nst != 1 {
+			ps = append(ps, mon.Problem{Sig: "joined-task-count", Msg: fmt.Sprintf("the joining process executed %d tasks for one sub-stream", nst)})
+		}
+		if a, err := mon.LoadAudit(filepath.Join(res.Wd, "joined.out.audit.json")); err != nil {
+			ps = append(ps, mon.Problem{Sig: "audit-file-unreadable", Msg: err.Error()})
+		} else {
+			var ks []string
+			for k := range a.Upstream {
+				ks = append(ks, k)
+			}
+			sort.Strings(ks)
+			as := append([]string{}, arrived...)
+			sort.Strings(as)
+			if strings.Join(ks, "\x00") != strings.Join(as, "\x00") {
+				ps = append(ps, mon.Problem{Sig: "joined-audit-upstream-keys", Msg: fmt.Sprintf("audit Upstream keys %v, sub-stream members %v", ks, as)})
+			}
+		}
+		if len(ps) > 0 {
+			for _, sig := range sigSet(ps) {
+				desc["problems"] = mon.Summarize(ps, 10)
+				c.Violation(sig, "members of mixed path shapes:\n  "+strings.Join(mon.Summarize(ps, 3), "\n  "), desc)
+			}
+			return
+		}
+		c.Count("mixed_path_shape_joins", 1)
+		c.Nontrivial(fmt.Sprintf("joinpaths|%d|%s|%v", n, sepName, cfg))
+	})
 }
